@@ -4849,10 +4849,7 @@ Octagonal_Shape<T>::refine(const Variable var,
             // positive, this amounts to rounding downwards, which is
             // achieved as usual by rounding upwards `minus_sc_denom'
             // and negating again the result.
-            PPL_DIRTY_TEMP(N, down_sc_denom);
-            assign_r(down_sc_denom, minus_sc_denom, ROUND_UP);
-            neg_assign_r(down_sc_denom, down_sc_denom, ROUND_UP);
-            div_assign_r(sum, sum, down_sc_denom, ROUND_UP);
+            div_round_up_by_positive(sum, sc_denom);
           }
           // Add the upper bound constraint, if meaningful.
           if (pinf_count == 0) {
@@ -4901,10 +4898,7 @@ Octagonal_Shape<T>::refine(const Variable var,
             // positive, this amounts to rounding downwards, which is
             // achieved as usual by rounding upwards `minus_sc_denom'
             // and negating again the result.
-            PPL_DIRTY_TEMP(N, down_sc_denom);
-            assign_r(down_sc_denom, minus_sc_denom, ROUND_UP);
-            neg_assign_r(down_sc_denom, down_sc_denom, ROUND_UP);
-            div_assign_r(neg_sum, neg_sum, down_sc_denom, ROUND_UP);
+            div_round_up_by_positive(neg_sum, sc_denom);
           }
           // Add the lower bound constraint, if meaningful.
           if (neg_pinf_count == 0) {
@@ -5002,10 +4996,7 @@ Octagonal_Shape<T>::refine(const Variable var,
           // approximated towards zero. Since `sc_denom' is known to be
           // positive, this amounts to rounding downwards, which is achieved
           // by rounding upwards `minus_sc-denom' and negating again the result.
-          PPL_DIRTY_TEMP(N, down_sc_denom);
-          assign_r(down_sc_denom, minus_sc_denom, ROUND_UP);
-          neg_assign_r(down_sc_denom, down_sc_denom, ROUND_UP);
-          div_assign_r(sum, sum, down_sc_denom, ROUND_UP);
+          div_round_up_by_positive(sum, sc_denom);
         }
 
         if (pinf_count == 0) {
@@ -5096,10 +5087,7 @@ Octagonal_Shape<T>::refine(const Variable var,
           // positive, this amounts to rounding downwards, which is
           // achieved by rounding upwards `minus_sc_denom' and
           // negating again the result.
-          PPL_DIRTY_TEMP(N, down_sc_denom);
-          assign_r(down_sc_denom, minus_sc_denom, ROUND_UP);
-          neg_assign_r(down_sc_denom, down_sc_denom, ROUND_UP);
-          div_assign_r(sum, sum, down_sc_denom, ROUND_UP);
+          div_round_up_by_positive(sum, sc_denom);
         }
 
         if (pinf_count == 0) {
@@ -5460,10 +5448,7 @@ Octagonal_Shape<T>::affine_image(const Variable var,
       // towards zero. Since `sc_denom' is known to be positive, this amounts to
       // rounding downwards, which is achieved as usual by rounding upwards
       // `minus_sc_denom' and negating again the result.
-      PPL_DIRTY_TEMP(N, down_sc_denom);
-      assign_r(down_sc_denom, minus_sc_denom, ROUND_UP);
-      neg_assign_r(down_sc_denom, down_sc_denom, ROUND_UP);
-      div_assign_r(pos_sum, pos_sum, down_sc_denom, ROUND_UP);
+      div_round_up_by_positive(pos_sum, sc_denom);
     }
     // Add the upper bound constraint, if meaningful.
     if (pos_pinf_count == 0) {
@@ -5510,10 +5495,7 @@ Octagonal_Shape<T>::affine_image(const Variable var,
       // towards zero. Since `sc_denom' is known to be positive, this amounts to
       // rounding downwards, which is achieved as usual by rounding upwards
       // `minus_sc_denom' and negating again the result.
-      PPL_DIRTY_TEMP(N, down_sc_denom);
-      assign_r(down_sc_denom, minus_sc_denom, ROUND_UP);
-      neg_assign_r(down_sc_denom, down_sc_denom, ROUND_UP);
-      div_assign_r(neg_sum, neg_sum, down_sc_denom, ROUND_UP);
+      div_round_up_by_positive(neg_sum, sc_denom);
     }
     // Add the lower bound constraint, if meaningful.
     if (neg_pinf_count == 0) {
@@ -6320,7 +6302,6 @@ Octagonal_Shape<T>
   const Coefficient& sc_b = is_sc ? b : minus_b;
   const Coefficient& minus_sc_b = is_sc ? minus_b : b;
   const Coefficient& sc_denom = is_sc ? denominator : minus_denom;
-  const Coefficient& minus_sc_denom = is_sc ? minus_denom : denominator;
   // NOTE: here, for optimization purposes, `minus_expr' is only assigned
   // when `denominator' is negative. Do not use it unless you are sure
   // it has been correctly assigned.
@@ -6397,10 +6378,7 @@ Octagonal_Shape<T>
         // positive, this amounts to rounding downwards, which is
         // achieved as usual by rounding upwards
         // `minus_sc_denom' and negating again the result.
-        PPL_DIRTY_TEMP(N, down_sc_denom);
-        assign_r(down_sc_denom, minus_sc_denom, ROUND_UP);
-        neg_assign_r(down_sc_denom, down_sc_denom, ROUND_UP);
-        div_assign_r(sum, sum, down_sc_denom, ROUND_UP);
+        div_round_up_by_positive(sum, sc_denom);
       }
 
       if (pinf_count == 0) {
@@ -6500,10 +6478,7 @@ Octagonal_Shape<T>
         // positive, this amounts to rounding downwards, which is
         // achieved as usual by rounding upwards
         // `minus_sc_denom' and negating again the result.
-        PPL_DIRTY_TEMP(N, down_sc_denom);
-        assign_r(down_sc_denom, minus_sc_denom, ROUND_UP);
-        neg_assign_r(down_sc_denom, down_sc_denom, ROUND_UP);
-        div_assign_r(sum, sum, down_sc_denom, ROUND_UP);
+        div_round_up_by_positive(sum, sc_denom);
       }
 
       if (pinf_count == 0) {
@@ -7006,10 +6981,7 @@ Octagonal_Shape<T>::bounded_affine_image(const Variable var,
       // towards zero. Since `sc_denom' is known to be positive, this amounts to
       // rounding downwards, which is achieved as usual by rounding upwards
       // `minus_sc_denom' and negating again the result.
-      PPL_DIRTY_TEMP(N, down_sc_denom);
-      assign_r(down_sc_denom, minus_sc_denom, ROUND_UP);
-      neg_assign_r(down_sc_denom, down_sc_denom, ROUND_UP);
-      div_assign_r(neg_sum, neg_sum, down_sc_denom, ROUND_UP);
+      div_round_up_by_positive(neg_sum, sc_denom);
     }
     // Add the lower bound constraint, if meaningful.
     if (neg_pinf_count == 0) {
